@@ -112,7 +112,18 @@ def stale_uses(fn, noreturn=("libast_fatal_error",)):
             if q is not None and q.get("k") == "icast" and False:
                 return
             out.append((rsite.get(n["d"]), n, fn.vardecls[n["d"]]["n"]))
-    flow.forward(cfg, frozenset(), transfer, join=lambda a, b: a | b, visit=visit)
+    def refine(state, cond, truth, blk):
+        if isinstance(truth, tuple):
+            return state
+        st = state
+        for f in X.implied(cond, truth):
+            if f[0] == "null":
+                rd = X.root_decl(f[1])
+                if f[1] == "d%s" % rd:
+                    # a NULL local points nowhere: neither derived from the buffer nor stale
+                    st = frozenset(x for x in st if not (x[0] in ("der", "stale") and x[1] == rd))
+        return st
+    flow.forward(cfg, frozenset(), transfer, refine=refine, join=lambda a, b: a | b, visit=visit)
     seen = set()
     res = []
     for r, u, name in out:
